@@ -234,8 +234,9 @@ def run(tier, replay):
     try:
         th = tier == "thorough"
         # monitor 1: null builds over the C08 history workload
+        DRV = binp
         n = 96 if not th else 2500
-        jobs = [dict(seed=chk.seed, index=500000 + i, sd=sd, flavor="asan", steps=12 if not th else 20) for i in range(n)]
+        jobs = [dict(seed=chk.seed, index=500000 + i, sd=sd, flavor="asan", driver=DRV, steps=12 if not th else 20) for i in range(n)]
         hres = vlib.pmap(bs_runner.run_history, jobs)
         nulls = 0
         for r in hres:
